@@ -191,7 +191,8 @@ def wDoc : Doc := [
 
 /-- the hypotheses of `generate_total_partial` hold of a non-trivial pair (alias, `@skip` on a variable, a fragment
     spread, an interface-typed field with an inline fragment), and the model's own fuels are sufficient there -/
-example : schemaOkB wSchema = true ∧ SchemaValid wSchema ∧ ifaceOkB wSchema = true ∧ skipIncludeB wSchema = true ∧ checkOp wSchema wDoc = [] ∧
+example : schemaOkB wSchema = true ∧ SchemaValid wSchema ∧ ifaceOkB wSchema = true ∧ skipIncludeB wSchema = true ∧
+    checkOp wSchema wDoc = [] ∧
     noKeyClashB wSchema wDoc 4 4 = true ∧
     wDoc.all (fun x => match resultTree wSchema wDoc x with | some (.ok _) => true | _ => false) = true := by
   decide +kernel
@@ -207,7 +208,8 @@ def clashDoc : Doc := [
     `query Q { n: a { x } n: f }` is accepted by the checker against a schema satisfying all three schema conditions,
     and the printer panics with "Cannot merge fields of different types"; `noKeyClashB` is exactly what fails. -/
 theorem generate_total_counterexample :
-    schemaOkB wSchema = true ∧ SchemaValid wSchema ∧ ifaceOkB wSchema = true ∧ skipIncludeB wSchema = true ∧ checkOp wSchema clashDoc = [] ∧
+    schemaOkB wSchema = true ∧ SchemaValid wSchema ∧ ifaceOkB wSchema = true ∧ skipIncludeB wSchema = true ∧
+    checkOp wSchema clashDoc = [] ∧
     (clashDoc.all fun x => match resultTree wSchema clashDoc x with
       | some (.error .mergeFieldsDifferentTypes) => true | _ => false) = true ∧
     noKeyClashB wSchema clashDoc 4 4 = false := by
@@ -234,7 +236,8 @@ def deepDoc : Doc := [
     its merge fuel, while with 66 markers it returns a tree.  A limit of the model (the Rust recursion has no such bound);
     the K stream never generates such types. -/
 theorem model_fuels_not_sufficient_witness :
-    schemaOkB (deepSchema 70) = true ∧ SchemaValid (deepSchema 70) ∧ ifaceOkB (deepSchema 70) = true ∧ skipIncludeB (deepSchema 70) = true ∧
+    schemaOkB (deepSchema 70) = true ∧ SchemaValid (deepSchema 70) ∧ ifaceOkB (deepSchema 70) = true ∧
+    skipIncludeB (deepSchema 70) = true ∧
     checkOp (deepSchema 70) deepDoc = [] ∧ noKeyClashB (deepSchema 70) deepDoc 4 4 = true ∧
     (deepDoc.all fun x => match resultTree (deepSchema 70) deepDoc x with
       | some (.error .outOfFuel) => true | _ => false) = true ∧
@@ -259,7 +262,8 @@ def shadowDoc : Doc := [
     name (`resolve_schema_extensions` collects directive definitions without a uniqueness check; C05's
     `uniqueDirectiveNames` hypothesis). -/
 theorem generate_shadowed_skip_counterexample :
-    ifaceOkB shadowSchema = true ∧ checkOp shadowSchema shadowDoc = [] ∧ noKeyClashB shadowSchema shadowDoc 4 4 = true ∧
+    schemaOkB shadowSchema = true ∧ ifaceOkB shadowSchema = true ∧ checkOp shadowSchema shadowDoc = [] ∧
+    noKeyClashB shadowSchema shadowDoc 4 4 = true ∧
     (shadowDoc.all fun x => match resultTree shadowSchema shadowDoc x with
       | some (.error .typeSystemError) => true | _ => false) = true ∧
     skipIncludeB shadowSchema = false := by
@@ -280,7 +284,8 @@ def badImplDoc : Doc := [
     type (`I` has `x`), the printer on every possible object type (`A` has no `x`).  In the real pipeline this schema does
     not get that far: the schema checker rejects it, which is what `ifaceOk_of_checked` states in general. -/
 theorem generate_needs_ifaceOk :
-    schemaOkB badImplSchema = true ∧ SchemaValid badImplSchema ∧ skipIncludeB badImplSchema = true ∧ checkOp badImplSchema badImplDoc = [] ∧
+    schemaOkB badImplSchema = true ∧ SchemaValid badImplSchema ∧ skipIncludeB badImplSchema = true ∧
+    checkOp badImplSchema badImplDoc = [] ∧
     noKeyClashB badImplSchema badImplDoc 4 4 = true ∧
     (badImplDoc.all fun x => match resultTree badImplSchema badImplDoc x with
       | some (.error .typeSystemError) => true | _ => false) = true ∧
@@ -502,7 +507,9 @@ OPEN — carried by K/O only (stated, not proved), after this file:
   behaviour of the Rust code (whose recursion is bounded by its stack only); K never met it.
 * the three schema-side hypotheses of `pipeline_no_panic_partial` that no check establishes: unique type names across
   kinds, no field named `__typename` on a type of a kind without fields (vacuous for parsed documents), `skipIncludeB`.
-* `parse_config`, plugin hosts, the file system and the CLI process (C18's assumptions) have no theorem here.
+* `parse_config`, plugin hosts, the file system and the CLI process (C18's assumptions) have no theorem here, and their
+  panic sites (cli/src/{main,generate,schema_loader,plugin_host}.rs, config-file/src/{node,execute}.rs, plugin/src,
+  async-runtime/src, utils/src/relative_path.rs — 27 sites) are outside `translate/stage_sites.py`.
 -/
 
 end NitroVerif.C08
